@@ -63,7 +63,7 @@ CLAIMED.update({
           "Sequentially consistent interleavings only; the eventfd itself is the real kernel object.", "3/C03"),
   "C04": ("dsim+tsim", "deterministic simulation: shuttle-scheduled sender threads (calloop's mpsc replaced by shuttle's model) + single-threaded histories around the 1024 batch limit, history oracles", "exploration",
           "tsim: channel() and sync_channel(0/1/2/8), 1-3 sender threads doing send/try_send/drop, schedules at every queue push/pop, wake write and drain; oracle over the history: each successfully sent message delivered exactly once, per-sender order, exactly one Closed after the last sender began to drop, nothing after it, channel removed, and liveness: the loop thread is never left dispatching without progress while a sender is blocked or a message is queued. dsim: queue lengths 1023/1024/1025/2049, sync capacities, disable/enable, in-callback sends under the FIFO model.",
-          "Known finding F02 (sync_channel(0) rendezvous deadlock) is reported as KNOWN-FINDING. mpsc is shuttle's model of std's.", "3/C04"),
+          "The sync_channel(0) rendezvous deadlock this check found (was known finding F02) is repaired (9ed4dad); reverting either half of the repair is caught. mpsc is shuttle's model of std's.", "3/C04"),
   "C10": ("dsim+tsim", "deterministic simulation: shuttle-scheduled waker threads against an Executor in a real loop + single-threaded executor/stream histories, history oracles", "exploration",
           "tsim: 1-3 scripted futures (Pending m times, waker stashed), 1-3 threads waking them, optional removal of the executor while wakers are active; schedules at enqueue / notified-flag swap / eventfd write / flag clear / dequeue; oracle: every completed wake of a live task is followed by a poll, polls and drops only on the loop thread, each output exactly once, after the executor is dropped every future is dropped and schedule() is refused. dsim: schedule from callbacks and futures, 1023/1024/1025/2049 runnable tasks, drop with queued/finished/pending tasks, StreamSource item order / single None / removal.",
           "Known finding F12 (wake racing Executor::drop leaks the future) is reported as KNOWN-FINDING. Interleavings inside async-task are atomic steps.", "3/C10"),
